@@ -1,5 +1,6 @@
 import SonicModel.Lemmas.StrInplaceBase
 import SonicModel.Lemmas.SpecBound
+import SonicModel.Lemmas.StrPad
 /-
   The in-place decoder (Impl/StrInplace.lean) on a padded buffer: no access outside the buffer, the bytes written are the
   specification's decoding, nothing in front of the literal and nothing from the final reader position on is changed.
@@ -615,6 +616,35 @@ theorem runMany_spec (lossy : Bool) (t : Buf) : ∀ (is : List Nat) (ds : List (
           | succ n =>
             simp only [List.getElem_cons_succ]
             exact hm4 n (by simpa using hn) (by simpa using hd)
+
+/-- what the specification reads in the padded copy, in terms of the text itself -/
+theorem stringS_pad (lossy : Bool) (t : Buf) (i : Nat) :
+    (∀ bs e, Spec.stringS lossy (pad t) i = some (bs, e) → e ≤ t.size → Spec.stringS lossy t i = some (bs, e)) ∧
+    (∀ bs e, Spec.stringS lossy (pad t) i = some (bs, e) → t.size < e → Spec.stringS lossy t i = none) ∧
+    (Spec.stringS lossy (pad t) i = none → Spec.stringS lossy t i = none) := by
+  have hpad : pad t = t ++ padTail := rfl
+  rw [hpad]
+  refine ⟨?_, ?_, ?_⟩
+  · intro bs e h he
+    exact StrPad.stringS_prefix lossy t padTail _ i (bs, e) rfl h he
+  · intro bs e h he
+    cases hs : Spec.stringS lossy t i with
+    | none => rfl
+    | some r =>
+      have := StrPad.stringS_extend lossy t padTail _ i r rfl hs
+      rw [h] at this
+      have hr : r = (bs, e) := (Option.some.inj this).symm
+      have := Spec.stringS_le lossy t i r hs
+      rw [hr] at this
+      simp only at this
+      omega
+  · intro h
+    cases hs : Spec.stringS lossy t i with
+    | none => rfl
+    | some r =>
+      have := StrPad.stringS_extend lossy t padTail _ i r rfl hs
+      rw [h] at this
+      cases this
 
 end StrIn
 end Sonic
